@@ -321,8 +321,13 @@ func solveFor(pattern, x, g *Term) *Term {
 }
 
 // indexPatterns finds index positions in body whose only bound variable is x.
-func indexPatterns(body, x *Term) []*Term {
-	var out []*Term
+type idxPat struct {
+	idx  *Term
+	asrt *Sort
+}
+
+func indexPatterns(body, x *Term) []idxPat {
+	var out []idxPat
 	seen := map[int]bool{}
 	var onlyX func(t *Term) (hasX bool, other bool)
 	onlyX = func(t *Term) (bool, bool) {
@@ -348,7 +353,7 @@ func indexPatterns(body, x *Term) []*Term {
 		seen[t.ID] = true
 		if (t.Op == "select" || t.Op == "store") && t.Args[1].Sort.Kind == SInt {
 			if h, o := onlyX(t.Args[1]); h && !o {
-				out = append(out, t.Args[1])
+				out = append(out, idxPat{t.Args[1], t.Args[0].Sort})
 			}
 		}
 		for _, a := range t.Args {
@@ -360,8 +365,8 @@ func indexPatterns(body, x *Term) []*Term {
 }
 
 // groundIndexTerms collects the Int-sorted index arguments of selects/stores in ground position.
-func groundIndexTerms(roots []*Term, limit int) []*Term {
-	var out []*Term
+func groundIndexTerms(roots []*Term, limit int) map[*Sort][]*Term {
+	out := map[*Sort][]*Term{}
 	seen := map[int]bool{}
 	have := map[int]bool{}
 	var hasBoundVar func(t *Term) bool
@@ -388,9 +393,12 @@ func groundIndexTerms(roots []*Term, limit int) []*Term {
 		if t.Op == "forall" || t.Op == "exists" {
 			return
 		}
-		if (t.Op == "select" || t.Op == "store") && t.Args[1].Sort.Kind == SInt && !hasBoundVar(t.Args[1]) && !have[t.Args[1].ID] {
-			have[t.Args[1].ID] = true
-			out = append(out, t.Args[1])
+		if (t.Op == "select" || t.Op == "store") && t.Args[1].Sort.Kind == SInt && !hasBoundVar(t.Args[1]) {
+			k := t.Args[1].ID*7919 + len(t.Args[0].Sort.String())
+			if !have[k] {
+				have[k] = true
+				out[t.Args[0].Sort] = append(out[t.Args[0].Sort], t.Args[1])
+			}
 		}
 		for _, a := range t.Args {
 			rec(a)
@@ -399,9 +407,19 @@ func groundIndexTerms(roots []*Term, limit int) []*Term {
 	for _, r := range roots {
 		rec(r)
 	}
-	sort.SliceStable(out, func(i, j int) bool { return termWeight(out[i]) < termWeight(out[j]) })
-	if len(out) > limit {
-		out = out[:limit]
+	for srt, ts := range out {
+		// prefer terms that mention skolem constants or variables over bare numerals
+		sort.SliceStable(ts, func(i, j int) bool {
+			ci, cj := ts[i].IsConst, ts[j].IsConst
+			if ci != cj {
+				return !ci
+			}
+			return termWeight(ts[i]) < termWeight(ts[j])
+		})
+		if len(ts) > limit {
+			ts = ts[:limit]
+		}
+		out[srt] = ts
 	}
 	return out
 }
@@ -432,6 +450,52 @@ func Instantiate(asserts []*Term, rounds int) []*Term {
 				continue
 			}
 			nb := u.q.NBind
+			// several bound variables: instantiate one that occurs alone in an index position and leave the rest
+			// quantified (the partially instantiated formula is picked up again in the next round)
+			if nb >= 2 && u.q.Op == "forall" {
+				done := false
+				for i := 0; i < nb && !done; i++ {
+					x := u.q.Args[i]
+					if x.Sort.Kind != SInt {
+						continue
+					}
+					pats := indexPatterns(u.q.Args[nb], x)
+					if len(pats) == 0 {
+						continue
+					}
+					var rest []*Term
+					for j := 0; j < nb; j++ {
+						if j != i {
+							rest = append(rest, u.q.Args[j])
+						}
+					}
+					have := map[int]bool{}
+					n := 0
+					for _, p := range pats {
+						for _, g := range gidx[p.asrt] {
+							cand := solveFor(p.idx, x, g)
+							if cand == nil || have[cand.ID] || n >= 16 || in.nInst >= in.maxInst {
+								continue
+							}
+							have[cand.ID] = true
+							key := "partial," + itoa(i) + "," + itoa(cand.ID)
+							if u.done[key] {
+								continue
+							}
+							u.done[key] = true
+							n++
+							inst := Forall(rest, Subst(u.q.Args[nb], map[*Term]*Term{x: cand}))
+							ground = append(ground, Implies(u.name, in.sk(inst, 1)))
+							in.nInst++
+							progress = true
+						}
+					}
+					done = true
+				}
+				if done {
+					continue
+				}
+			}
 			var lists [][]*Term
 			ok := true
 			for i := 0; i < nb; i++ {
@@ -441,8 +505,8 @@ func Instantiate(asserts []*Term, rounds int) []*Term {
 					if pats := indexPatterns(u.q.Args[nb], x); len(pats) > 0 {
 						have := map[int]bool{}
 						for _, p := range pats {
-							for _, g := range gidx {
-								if cand := solveFor(p, x, g); cand != nil && !have[cand.ID] {
+							for _, g := range gidx[p.asrt] {
+								if cand := solveFor(p.idx, x, g); cand != nil && !have[cand.ID] {
 									have[cand.ID] = true
 									c = append(c, cand)
 								}
@@ -515,7 +579,7 @@ func Instantiate(asserts []*Term, rounds int) []*Term {
 		}
 		flush()
 		if os.Getenv("VCGEN_DEBUG_INST") != "" {
-			fmt.Fprintf(os.Stderr, "inst round %d: %d quantifiers, %d instances, %d ground idx, pools:", r, len(in.order), in.nInst, len(gidx))
+			fmt.Fprintf(os.Stderr, "inst round %d: %d quantifiers, %d instances, %d index sorts, pools:", r, len(in.order), in.nInst, len(gidx))
 			for s, c := range cands {
 				fmt.Fprintf(os.Stderr, " %s=%d", s, len(c))
 			}
